@@ -24,7 +24,7 @@ OWN = ["none", "c", "l", "both", "bad", "bin"]
 SIB = ["absent", "empty", "c", "full"]
 PREC = ["closest", "aggregate", "override"]
 INFO = ["none", "c", "l", "both"]
-DIR_VARIANTS = [("d1", "d2"), ("Lib", "3rdparty"), (".config", "A b")]
+DIR_VARIANTS = [("d1", "d2"), ("Lib", "3rdparty"), (".config", "A b"), ("-vendor", "+x"), ("(app)", "#a")]
 
 
 def dirs_of(case):
@@ -87,6 +87,16 @@ def cases(tier, seed):
         for dv in range(1, len(DIR_VARIANTS)):
             for ch in itertools.product(o, repeat=3):
                 yield {"chain": list(ch), "dirs": dv}
+    o2 = level_options(False)
+    for ch in itertools.product(o2, repeat=2 if tier == "quick" else 3):
+        if any(x is not None for x in ch):
+            yield {"chain": ([None] if tier == "quick" else []) + list(ch), "same": True}
+    for opt_sub in (False, True):
+        for opt_meson in (False, True):
+            for p in PREC:
+                yield {"subproject": p, "submodules": opt_sub, "meson": opt_meson}
+    for p in PREC:
+        yield {"ignored_toml": p}
     for n in (0, 1, 2):
         yield {"dep5": n}
     yield {"dep5": 1, "conflict": True}
@@ -111,17 +121,23 @@ def own_info(o):
             "l": (set(), {"0BSD"}), "both": ({"SPDX-FileCopyrightText: 2020 Own"}, {"0BSD"})}[o]
 
 
+SAME = {"on": False}  # every source states the *same* copyright line and licence (only the source differs)
+SAME_C, SAME_L = "SPDX-FileCopyrightText: 2020 Own", "0BSD"
+
+
 def sib_text(s):
-    return {"empty": {"empty": True}, "c": "SPDX-FileCopyrightText: 2021 Sib\n",
-            "full": "SPDX-FileCopyrightText: 2021 Sib\nSPDX-License-Identifier: ISC\n"}[s]
+    c, l = (SAME_C, SAME_L) if SAME["on"] else ("SPDX-FileCopyrightText: 2021 Sib", "ISC")
+    return {"empty": {"empty": True}, "c": f"{c}\n", "full": f"{c}\nSPDX-License-Identifier: {l}\n"}[s]
 
 
 def sib_info(s):
-    return {"absent": None, "empty": (set(), set()), "c": ({"SPDX-FileCopyrightText: 2021 Sib"}, set()),
-            "full": ({"SPDX-FileCopyrightText: 2021 Sib"}, {"ISC"})}[s]
+    c, l = (SAME_C, SAME_L) if SAME["on"] else ("SPDX-FileCopyrightText: 2021 Sib", "ISC")
+    return {"absent": None, "empty": (set(), set()), "c": ({c}, set()), "full": ({c}, {l})}[s]
 
 
 def table_info(level, i, decoy):
+    if SAME["on"] and not decoy:
+        return ({SAME_C} if i in ("c", "both") else set()), ({SAME_L} if i in ("l", "both") else set())
     c = {f"2022 {'D' if decoy else 'T'}{level}"} if i in ("c", "both") else set()
     l = {(D_LIC if decoy else T_LIC)[level]} if i in ("l", "both") else set()
     return c, l
@@ -177,10 +193,78 @@ def coarse_sig(o, s, chain, mc, ml, oc, ol, got_c, got_l):
     return f"file={fk}|chain={'>'.join(k.split(':')[0] for k in kinds)}|{'+'.join(sorted(set(d)))}"
 
 
+def evaluate_subproject(case) -> R:
+    """A REUSE.toml inside a Meson subproject is a source exactly when the
+    subproject is included (and is not consulted through the other option)."""
+    from .. import gitrepo
+
+    r = R()
+    root = fresh_dir("c04")
+    p = case["subproject"]
+    rec = {"REUSE.toml": 'version = 1\n\n[[annotations]]\npath = "**"\nprecedence = "aggregate"\nSPDX-FileCopyrightText = "2022 Root"\n',
+           "subprojects/lib/REUSE.toml": f'version = 1\n\n[[annotations]]\npath = "**"\nprecedence = "{p}"\nSPDX-FileCopyrightText = "2022 Sub"\nSPDX-License-Identifier = "MIT"\n',
+           "subprojects/lib/code.c": "/* SPDX-License-Identifier: 0BSD */\nint x;\n", "subprojects/lib/plain.txt": "text\n", "main.c": "int m;\n"}
+    materialise(root, rec)
+    gitrepo.init(root)
+    extra = (["--include-submodules"] if case["submodules"] else []) + (["--include-meson-subprojects"] if case["meson"] else [])
+    out, data = lint_json(root, extra=extra)
+    if data is None:
+        raise HarnessError(f"lint failed: {out.brief()}")
+    files = {f["path"] for f in data["files"]}
+    want_files = {"main.c"} | ({"subprojects/lib/code.c", "subprojects/lib/plain.txt"} if case["meson"] else set())
+    if files != want_files:
+        r.violation(f"subproject-files|meson={case['meson']}|sm={case['submodules']}", f"options {extra}: files {sorted(files)}, expected {sorted(want_files)}")
+    r.validated = 1
+    if case["meson"]:
+        for path, own in (("subprojects/lib/code.c", (set(), {"0BSD"})), ("subprojects/lib/plain.txt", None)):
+            items = file_items(data, path)
+            if items is None:
+                continue
+            chain = [("aggregate", {"2022 Root"}, set(), "REUSE.toml"), (p, {"2022 Sub"}, {"MIT"}, "subprojects/lib/REUSE.toml")]
+            mc, ml, oc, ol = ref.expected((path, path + ".license"), own, None, chain)
+            got_c, got_l = set(items[0]), set(items[1])
+            r.validated += 1
+            if not (mc <= got_c <= (mc | oc) and ml <= got_l <= (ml | ol)):
+                r.violation(f"subproject-toml|{p}|sm={case['submodules']}", f"options {extra}, {path} under subprojects/lib/REUSE.toml ({p}): lint attributes {sorted(got_c)} {sorted(got_l)}, expected {sorted(mc)} {sorted(ml)}")
+    r.outcome = f"subproject-meson={case['meson']}"
+    r.tags.append("subproject")
+    return r
+
+
+def evaluate_ignored_toml(case) -> R:
+    """A REUSE.toml that is itself VCS-ignored is not a source."""
+    from .. import gitrepo
+
+    r = R()
+    root = fresh_dir("c04")
+    p = case["ignored_toml"]
+    rec = {"d/REUSE.toml": f'version = 1\n\n[[annotations]]\npath = "**"\nprecedence = "{p}"\nSPDX-FileCopyrightText = "2022 Ignored"\nSPDX-License-Identifier = "MIT"\n',
+           "d/code.py": "# SPDX-License-Identifier: 0BSD\nx = 1\n", ".gitignore": "REUSE.toml\n", "main.py": "m = 1\n"}
+    materialise(root, rec)
+    gitrepo.git(root, "init", "-q")
+    gitrepo.git(root, "add", "d/code.py", ".gitignore", "main.py")
+    out, data = lint_json(root)
+    if data is None:
+        raise HarnessError(f"lint failed: {out.brief()}")
+    items = file_items(data, "d/code.py")
+    want = ([], [("0BSD", "d/code.py", "file-header")])
+    r.validated = 1
+    if items is None or (list(items[0]), list(items[1])) != want:
+        r.violation(f"ignored-toml-used|{p}", f"d/REUSE.toml is ignored by Git ({p}): lint attributes {items} to d/code.py, expected {want}")
+    r.outcome = "ignored-toml"
+    r.tags.append("subproject")
+    return r
+
+
 def evaluate(case) -> R:
+    if "subproject" in case:
+        return evaluate_subproject(case)
+    if "ignored_toml" in case:
+        return evaluate_ignored_toml(case)
     if "dep5" in case:
         return evaluate_dep5(case)
     chain = case["chain"]
+    SAME["on"] = bool(case.get("same"))
     DIRS = dirs_of(case)
     FDIR = DIRS[2]
     r = R()
@@ -225,7 +309,7 @@ def evaluate(case) -> R:
                 r.violation(f"duplicate-item|O={o},L={s}|{sh}", f"{path}: duplicated items {items}")
             mc, ml, oc, ol = ref.expected((path, path + ".license"), own_info(o), sib_info(s), model_chain)
             r.validated += 1
-            r.state_keys.append([o, s, chain, case.get("dirs", 0), bool(case.get("literal_decoy"))])
+            r.state_keys.append([o, s, chain, case.get("dirs", 0), bool(case.get("literal_decoy")), bool(case.get("same"))])
             ok = mc <= got_c <= (mc | oc) and ml <= got_l <= (ml | ol)
             if not ok:
                 r.violation(
@@ -305,7 +389,7 @@ def evaluate_dep5(case) -> R:
 
 
 def vacuity(st):
-    for t in ("nested", "override", "dep5"):
+    for t in ("nested", "override", "dep5", "subproject"):
         if not st.tags.get(t):
             return f"no case tagged {t}"
     return None
